@@ -102,7 +102,7 @@ func vsimRun(r *sim.Run) {
 			r.Probe("raw-fragment-production")
 		} else {
 			r.Guard("packager", func() {
-				p, err = work.Package(r, work.PackOpts{MaxTracks: 1, MaxSegs: 4, MaxFrags: 3, MaxSamples: 8, Foreign: t.Bool(), Styp: 1, SplitTruns: true})
+				p, err = work.Package(r, work.PackOpts{MaxTracks: 1, MaxSegs: 4, MaxFrags: 3, MaxSamples: 8, Foreign: t.Bool(), Styp: 1, SplitTruns: true, LargeMdat: true})
 			})
 			if err != nil || p == nil {
 				r.Violate("packager-error", "a documented-valid API history failed: %v", err)
